@@ -295,6 +295,7 @@ func TestVerif_C13_rl(t *testing.T) {
 		"streams of 1..6 lines with lengths around B (B-3..B+1, 2B-2..2B+1, 3B+5), CRs at the buffer edge, terminators CRLF/LF/none, leading blanks; read scripts: whole / 1-byte / B-sized / random chunks, empty reads, 100+ empty reads, EOF with or after the data, mid-stream errors; op lists over L (readLine closure), S / S<lim> (readLineSlice), K (skipSpace); every input runs with dump off and on; non-trivial = a line reached the buffer size or an error/limit was hit")
 	r := s.Rand()
 	cnt := c13Counter{}
+	var pendDump []c13RlPending
 	n := verifh.N(1500, 60000)
 	for c := 0; c < n; c++ {
 		B := verifh.Pick(r, []int{16, 16, 16, 64, 64, 4096})
@@ -363,7 +364,25 @@ func TestVerif_C13_rl(t *testing.T) {
 		case plain.ate > 0:
 			class = "h1-resp-fold-space-not-dumped"
 		}
-		s.Case("c13rl "+fmt.Sprintf(base, "dump"), dumped.answer, ok, class, nontriv, "dump "+human)
+		// The known findings are recognised by their exact behaviour, not only by the input
+		// class: the class is kept only when the implementation answers like the model of the
+		// UNPATCHED closure (`dumpold`); any other wrong answer on the same input alarms.
+		pendDump = append(pendDump, c13RlPending{"c13rl " + fmt.Sprintf(base, "dump"), "c13rl " + fmt.Sprintf(base, "dumpold"), dumped.answer, ok, class, nontriv, "dump " + human})
+	}
+	oldLines := make([]string, len(pendDump))
+	for i, p := range pendDump {
+		oldLines[i] = p.oldLine
+	}
+	oldAnswers, err := verifh.RunModel(oldLines)
+	if err != nil {
+		t.Fatalf("model: %v", err)
+	}
+	for i, p := range pendDump {
+		class := p.class
+		if p.impl != oldAnswers[i] {
+			class = ""
+		}
+		s.Case(p.line, p.impl, p.ok, class, p.nontriv, p.human)
 	}
 	for _, must := range []string{"line>=B", "skipSpace-ate", "erreof", "errtoolarge", "B=4096"} {
 		if cnt[must] == 0 {
@@ -379,6 +398,14 @@ type c13Counter map[string]int
 func (c c13Counter) add(s *verifh.Session, k string) {
 	s.Count(k)
 	c[k]++
+}
+
+type c13RlPending struct {
+	line, oldLine, impl string
+	ok                  bool
+	class               string
+	nontriv             bool
+	human               string
 }
 
 func c13Clip(s string, n int) string {
